@@ -85,17 +85,17 @@ func rank(s string) int {
 
 // OK records a discharged obligation.
 func (c *Check) OK(rule, key, pos, desc, how string, nontrivial bool) {
-	c.add(&Obligation{Rule: rule, Key: key, Pos: pos, Desc: desc, Status: Discharged, How: how, Nontrivial: nontrivial, Config: c.curCfg})
+	c.add(&Obligation{Rule: rule, Key: key, Pos: pos, Desc: desc, Status: Discharged, How: how, Nontrivial: nontrivial, Config: c.cfgLabel()})
 }
 
 // Fail records a violated obligation.
 func (c *Check) Fail(rule, key, pos, desc, why string, trail ...string) {
-	c.add(&Obligation{Rule: rule, Key: key, Pos: pos, Desc: desc, Status: Violated, How: why, Nontrivial: true, Trail: trail, Config: c.curCfg})
+	c.add(&Obligation{Rule: rule, Key: key, Pos: pos, Desc: desc, Status: Violated, How: why, Nontrivial: true, Trail: trail, Config: c.cfgLabel()})
 }
 
 // Unknown records an obligation the checker could not decide.
 func (c *Check) Unknown(rule, key, pos, desc, why string) {
-	c.add(&Obligation{Rule: rule, Key: key, Pos: pos, Desc: desc, Status: Undecided, How: why, Nontrivial: true, Config: c.curCfg})
+	c.add(&Obligation{Rule: rule, Key: key, Pos: pos, Desc: desc, Status: Undecided, How: why, Nontrivial: true, Config: c.cfgLabel()})
 }
 
 // Cond records discharged or violated depending on ok.
@@ -199,8 +199,12 @@ func (c *Check) Finish(verifDir string) int {
 			lines = append(lines, fmt.Sprintf("VIOLATION property=%s replay=%s", c.Property, rp))
 		}
 	}
+	printed := map[string]bool{}
 	for _, l := range knownHit {
-		fmt.Println(l)
+		if !printed[l] { // one line per finding, however many configurations show it
+			fmt.Println(l)
+		}
+		printed[l] = true
 	}
 	for _, l := range lines {
 		fmt.Println(l)
